@@ -32,6 +32,16 @@ def range_enum(ctx):
             ft = v["fields"][0]["ty"] if len(v["fields"]) == 1 else ""
             if "Range<u64>" in ft and not ft.startswith("std::ops::Range<"):     # a *list* of ranges (SmallVec / Vec / slice), not one range
                 out.append((a["path"], v["name"]))
+    if len(out) > 1:
+        # several enums carry a range list (e.g. a private "what to serve" enum built from the parser's answer): the parser's is
+        # the one constructed in a function that takes the header value (Option<&HeaderValue>) and the entity length
+        def built_by_parser(adt, variant):
+            for b, _, _ in aggregates(ctx.facts, adt, variant):
+                tys = [b["locals"][i]["s"] for i in range(1, b["arg_count"] + 1)]
+                if any(x.startswith("std::option::Option<&") and "HeaderValue" in x for x in tys) and "u64" in tys:
+                    return True
+            return False
+        out = [x for x in out if built_by_parser(*x)]
     if len(out) != 1:
         from ..check import FailClosed
         raise FailClosed("expected exactly one enum variant carrying the resolved Range<u64> list, found %r" % (out,))
@@ -76,12 +86,21 @@ def hyphen_term(o, base):
         f = ev.get("found") if ev.get("found") is not None else ev.get("result")
         if isinstance(f, tuple) and f and f[0] == "found" and f[1] == base:
             needle = f[2]
+            if is_agg(needle) and needle[1] == "closure":
+                # `bytes().position(|b| b == b'-')`: the byte the predicate is true on
+                from .common import pred_true_set
+                ts_ = pred_true_set(_CTX[0], needle) if _CTX else None
+                needle = const(next(iter(ts_))) if ts_ is not None and len(ts_) == 1 else needle
             if needle == const(45):
                 return ("payload", f, "Some", "0")
     return None
 
 
+_CTX = []
+
+
 def classify_iteration(ctx, o, Lterm, units=()):
+    _CTX[:] = [ctx]
     """-> dict describing what this path did in one loop iteration, or None if it never parsed a number"""
     evs = fromstr_events(o, units)
     nums = {}
@@ -170,6 +189,13 @@ def push_events(o):
     for ev in o.events:
         if ev["k"] == "call" and method_name(ev["callee"]) in ("push",) and "Range<u64>" in (ev["callee"].get("res_full") or ev["callee"].get("full") or ""):
             out.append(ev)
+        elif ev["k"] == "call" and method_name(ev["callee"]) == "extend" and len(ev["args"]) == 2 and is_agg(ev["args"][1]) and \
+                ev["args"][1][2] == "std::option::Option" and "Range<u64>" in (ev["callee"].get("res_full") or ev["callee"].get("full") or ""):
+            # `ranges.extend(Some(r))` pushes r; `extend(None)` pushes nothing
+            if ev["args"][1][3] == "Some":
+                e2 = dict(ev)
+                e2["args"] = [ev["args"][0], agg_get(ev["args"][1], "0")]
+                out.append(e2)
     return out
 
 
